@@ -272,18 +272,32 @@ def check(ctx: Ctx) -> None:
     cm = SrcModel(model.repo, overlay=ov)
     seen = any(isinstance(n, ast.Call) and (dotted(n.func) or "").endswith("as_completed") for n in ast.walk(cm.func("ahbicht._vstat_control2.f").node))
     ctx.require(seen, "C12.noapi positive control not recognised")
-    # ---- C12.ctx: the setter runs inside the per-assignment coroutine
+    # ---- C12.ctx: every evaluation of is_valid_expression sees the data its own content_evaluation_result_setter call
+    # configured (the setter is context-local: it runs inside the task that evaluates, before the evaluation)
     ive = model.func("ahbicht.content_evaluation.is_valid_expression")
-    setter_param = ive.params[1] if len(ive.params) > 1 else None
-    ctx.require(setter_param is not None, "is_valid_expression lost its setter parameter")
-    outer_calls = [n for n in walk_shallow(ive.node) if isinstance(n, ast.Call) and isinstance(n.func, ast.Name) and n.func.id == setter_param]
-    inner = [(sub, n) for sub in ive.nested.values() for n in ast.walk(sub.node) if isinstance(n, ast.Call) and isinstance(n.func, ast.Name) and n.func.id == setter_param]
-    ctx.ob("C12.ctx", "setter-in-task", not outer_calls and bool(inner) and all(sub.is_async for sub, _ in inner),
-           "is_valid_expression calls the content_evaluation_result_setter outside the per-assignment coroutine: concurrent evaluations would share the last data",
-           file=ive.file, line=ive.node.lineno, function=ive.qualname)
-    for sub, call in inner:
-        ev = [n.lineno for n in ast.walk(sub.node) if isinstance(n, ast.Await)]
-        ctx.ob("C12.ctx", "setter-before-await", bool(ev) and call.lineno < min(ev), "the setter does not precede the awaited evaluation", file=ive.file, line=call.lineno, function=sub.qualname)
+    from ..evalmodel import run_is_valid
+
+    for text in ("Muss [1] U [2]", "Muss [1] U [901]", "Muss [1] O [2]"):
+        for schedule in ("fwd", "rev"):
+            def one(ch, text=text, schedule=schedule):
+                obs: dict = {}
+                res, _n = run_is_valid(model, text, ch, obs=obs, schedule=schedule)
+                return res, obs
+
+            for _trace, (res, obs) in explore(one):
+                ctx.count()
+                configs = obs.get("configs", [])
+                seen: dict = {}
+                for kind, key, cfg in obs.get("lookups", []):
+                    seen.setdefault(cfg, []).append(f"{kind}:{key}")
+                stale = [f"{k} looked up before any data was set" for k in seen.get(None, [])]
+                unseen = [c for c in configs if c not in seen]
+                ok = len(configs) >= 2 and not stale and not unseen
+                ctx.ob("C12.ctx", f"{text}/{schedule}", ok,
+                       f"is_valid_expression({text!r}), {schedule} schedule: {len(configs)} content evaluation results were set, but the evaluations looked their "
+                       f"evaluators up under the configurations {sorted(k for k in seen if k is not None)}{' and ' + stale[0] if stale else ''}: "
+                       "the setter must run inside the task that evaluates (before the evaluation), otherwise concurrent evaluations share one set of data",
+                       file=ive.file, line=ive.node.lineno, function=ive.qualname)
     ctx.soft(lambda: check_path(ctx, "C12.state", ["ahbicht.expressions.ahb_expression_evaluation.evaluate_ahb_expression_tree", "ahbicht.content_evaluation.is_valid_expression",
                                   "ahbicht.expressions.expression_resolver.parse_expression_including_unresolved_subexpressions"],
                "evaluation results must not depend on other (concurrent or earlier) evaluations",
